@@ -66,6 +66,9 @@ type Case struct {
 	// small buffer the block boundaries of the loader fall inside and exactly
 	// at the end of lines of ordinary files.
 	LineBuf int `json:"line_buf,omitempty"`
+	// ShortRead, when > 0: the files are read at most that many bytes per
+	// Read call (a reader may always deliver less than asked for).
+	ShortRead int `json:"short_read,omitempty"`
 }
 
 type engine struct {
@@ -175,6 +178,10 @@ func genForm(r *tape.Rand, avoid []harness.Finding, stash bool) []string {
 	return []string{"(list 1 2)"}
 }
 
+// fatForms (set per case by Generate): every form carries a string of 100-700
+// bytes, so that history and stash files span several 4096-byte blocks.
+var fatForms bool
+
 func genForm1(r *tape.Rand, avoid []harness.Finding, stash bool) []string {
 	nlines := 1 + r.Intn(4)
 	if r.Pct(50) {
@@ -193,6 +200,10 @@ func genForm1(r *tape.Rand, avoid []harness.Finding, stash bool) []string {
 		// a line longer than the line reader's buffer (4096 bytes)
 		k := 1 + r.Intn(len(toks)-1)
 		toks[k] = `"` + strings.Repeat("long text ", 300+r.Intn(700)) + `"`
+	} else if fatForms {
+		// a session whose files grow past several 4096-byte blocks
+		k := 1 + r.Intn(len(toks)-1)
+		toks[k] = `"` + strings.Repeat("wide ", 20+r.Intn(120)) + `"`
 	}
 	toks[len(toks)-1] += ")"
 	// distribute tokens over lines
@@ -235,8 +246,13 @@ func (e *engine) Generate(seed uint64, idx int, tier string, avoid []harness.Fin
 		n = 2 + r.Intn(6) // many short sequences
 	}
 	var c Case
+	fatForms = r.Pct(12)
+	defer func() { fatForms = false }()
 	if r.Pct(55) {
 		c.LineBuf = []int{16, 17, 19, 24, 32, 33, 48, 64, 100, 128}[r.Intn(10)]
+	}
+	if r.Pct(15) {
+		c.ShortRead = 1 + r.Intn(40)
 	}
 	limit := 3 + r.Intn(10)
 	if r.Pct(20) {
@@ -245,15 +261,19 @@ func (e *engine) Generate(seed uint64, idx int, tier string, avoid []harness.Fin
 	if r.Pct(8) {
 		limit = r.Intn(3) // 0 (history off), 1, 2
 	}
+	if fatForms && limit < 12 {
+		limit = 12 + r.Intn(20)
+	}
 	c.Ops = append(c.Ops, Op{K: "limit", A: limit})
 	// swarm: per-case operation mix
 	wHist := 40 + r.Intn(50)
 	wStash := r.Intn(25)
 	wSet := r.Intn(25)
-	wClear := r.Intn(8)
+	wClear := r.Intn(12)
 	wRestart := 3 + r.Intn(15)
 	wLimit := r.Intn(6)
-	rangedClear := r.Pct(25)
+	rangedClear := r.Pct(40)
+	hn, sn := 0, 0 // rough sizes of the history and the stash, to aim ranged clears
 	c.SafeRanged = avoids(avoid, "ranged-clear")
 	total := wHist + wStash + wSet + wClear + wRestart + wLimit
 	var pool [][]string
@@ -269,6 +289,9 @@ func (e *engine) Generate(seed uint64, idx int, tier string, avoid []harness.Fin
 				pool = append(pool, f)
 			}
 			c.Ops = append(c.Ops, Op{K: "hadd", Form: f})
+			if hn++; limit > 0 && hn > limit+limit/10 {
+				hn = limit
+			}
 			if r.Pct(8) {
 				c.Ops = append(c.Ops, Op{K: "hedit", A: r.Intn(4)})
 			}
@@ -277,6 +300,7 @@ func (e *engine) Generate(seed uint64, idx int, tier string, avoid []harness.Fin
 			}
 		case x < wHist+wStash:
 			c.Ops = append(c.Ops, Op{K: "sadd", Form: genForm(r, avoid, true)})
+			sn++
 		case x < wHist+wStash+wSet:
 			v := watched[r.Intn(len(watched))]
 			if v == "*repl-history-limit*" {
@@ -296,7 +320,19 @@ func (e *engine) Generate(seed uint64, idx int, tier string, avoid []harness.Fin
 				if c.SafeRanged {
 					op.A = 0
 					op.B = 1 + r.Intn(12)
+					// aim at the range the unchanged tree handles: at least
+					// the older half, and something is left to be rewritten
+					if n := map[bool]int{true: sn, false: hn}[op.K == "sclear"]; n >= 3 && r.Pct(70) {
+						op.B = n/2 + r.Intn(n-1-n/2)
+					}
 				}
+			}
+			if op.K == "sclear" {
+				if sn -= op.B + 1; op.B < 0 || sn < 0 {
+					sn = 0
+				}
+			} else if hn -= op.B + 1; op.B < 0 || hn < 0 {
+				hn = 0
 			}
 			c.Ops = append(c.Ops, op)
 		case x < wHist+wStash+wSet+wClear+wRestart:
@@ -875,6 +911,10 @@ func (e *engine) Execute(raw json.RawMessage) (vd harness.Verdict) {
 	e.safeRanged = c.SafeRanged
 	simos.SetKnob("linereader", c.LineBuf)
 	defer simos.SetKnob("linereader", 0)
+	simos.SetKnob("bufio", c.LineBuf)
+	defer simos.SetKnob("bufio", 0)
+	simos.SetKnob("shortread", c.ShortRead)
+	defer simos.SetKnob("shortread", 0)
 	if c.LineBuf > 0 {
 		a.probes["cases_with_small_line_buffer"]++
 	}
